@@ -55,7 +55,7 @@ def elem_inv(I, heap, dtyp, k, v):
     WF (DESIGN.md Appendix A, wf_gateway/buffer_view key clauses):
       every dict[int, Node] maps n to a node whose node_id is n, and 0 <= n <= 255 (the decoder's node id range),
       every dict[int, Child] maps c to a child whose child_id is c,
-      every dict[key3, Message] maps q to a message whose (node, child, type) is q.
+      every dict[key3, Message] maps q to a message whose (node, child, type) is q and whose command is 0..4.
     """
     vt = dtyp.args[1]
     if vt == TObj("Node"):
@@ -65,7 +65,8 @@ def elem_inv(I, heap, dtyp, k, v):
     if vt == TObj("Message") and dtyp.args[0] == TKey3:
         return [fld(I, heap, "Message.node_id", IntS, v) == k3n(k),
                 fld(I, heap, "Message.child_id", IntS, v) == k3c(k),
-                fld(I, heap, "Message.message_type", IntS, v) == k3t(k)]
+                fld(I, heap, "Message.message_type", IntS, v) == k3t(k),
+                fld(I, heap, "Message.command", IntS, v) >= 0, fld(I, heap, "Message.command", IntS, v) <= 4]
     return []
 
 
